@@ -92,4 +92,19 @@ TEXTS = {
         "level_text": "Exploration: >10^5 plugin pipelines and >2*10^4 anonymisation runs per quick check; every traffic class is required to actually change texts (coverage floor), so the plugins are demonstrably decoding while the monitor watches.",
         "level_note": "decoding correctness of the plugins (the produced text) is not part of the property and not checked",
     },
+    "C15": {
+        "technique": T + "client-side session model (trace-specification monitor) over websocket frames of the real server binary under generated hostile command histories; liveness restated as bounded progress (reply within 60 s); stderr panic monitor",
+        "level_text": "Exploration: >10^4 commands per quick run in hundreds of sessions; every reply is checked against the model, every session ends with a quiet period and a liveness/stderr check.",
+        "level_note": "command histories and timing relative to parsing are sampled; TSan/ASan builds of the server are used in the thorough tier",
+    },
+    "C16": {
+        "technique": T + "specification oracle over stream state after every batching step (library) and over decoded websocket frames of the real server (binary): exactly-once/in-order window delivery, announce-before-data ordering, paging coverage, lookup results",
+        "level_text": "Exploration: >2*10^4 library histories (every step checked) and >150 binary sessions per quick run with field-by-field comparison of every delivered message.",
+        "level_note": "server side batching is influenced through hook H4 (parser pacing, channel capacity), not enumerated",
+    },
+    "C14": {
+        "technique": T + "black-box monitor of the real `adlt convert` binary: specification oracle (window AND lifecycles AND filters) over parsed stdout and the reference-decoded -o file, reference invocation validated against generated truth, lifecycle oracle from the library detector",
+        "level_text": "Exploration: >4000 invocations per quick run over generated multi-file inputs with pairwise option coverage tracked as distinct cases.",
+        "level_note": "the unfiltered merged order is taken from a validated reference invocation of the same binary",
+    },
 }
